@@ -585,7 +585,19 @@ def run_case(case):
 
 
 def schedule(s, m, sch, case):
-    """drive the threads; returns a verdict dict"""
+    """drive the threads; returns a verdict dict (with the final queue content and whether the loop is parked)"""
+    v = _schedule(s, m, sch, case)
+    loop = s.byidx[0]
+    v['blocked'] = bool(not loop.done and loop.kind in ('wait', 'select') and loop.enabled is not None
+                        and not loop.enabled())
+    q = m._queue
+    ents = sorted(q._priority_queue, key=lambda x: (x[0], x[1])) + list(q._queue)
+    v['pending'] = [list(e[2][0].c03) for e in ents if hasattr(e[2][0], 'c03')]
+    v['gcount'] = s.gcount
+    return v
+
+
+def _schedule(s, m, sch, case):
     import random
     ctls = [s.byidx[i] for i in sorted(s.byidx)]
     loop = ctls[0]
@@ -644,13 +656,153 @@ def schedule(s, m, sch, case):
         s.main.acquire()
 
 
-if __name__ == '__main__' and len(sys.argv) > 1 and sys.argv[1] == '--probe':
-    import json
-    case = {'mode': sys.argv[2] if len(sys.argv) > 2 else 'fallback', 'timer': False, 'threads': [2],
-            'sched': {'kind': 'pre', 'order': [0, 1]}}
-    o = run_case(case)
-    print(json.dumps({k: v for k, v in o.items() if k != 'trace'}))
-    print(len(o['trace']))
-    for x in o['trace']:
-        print(x)
-    sys.exit(0)
+
+# ------------------------------------------------------------------------------------------- the check
+
+def coq_ev(e):
+    if e[0] == 'F':
+        return '(EvF %d %d)' % (e[1], e[2])
+    if e[0] == 'G':
+        return '(EvG %d)' % e[1]
+    return '(EvO %d)' % e[1]
+
+
+SIMPLE = {'Count': 'ACount', 'AppO': 'AAppO', 'AppF': 'AAppF', 'Snap': 'ASnap', 'Move': 'AMove', 'SetH': 'ASetH',
+          'Clr': 'AClr', 'Acq': 'AAcq', 'Rel': 'ARel', 'ArmTest': 'AArmTest', 'RTest': 'ARTest', 'RWrite': 'ARWrite',
+          'RHd': 'ARHd', 'RGet': 'ARGet', 'Sig': 'ASig', 'WTest': 'AWTest', 'Clear': 'AClear', 'WTestPos': 'AWTestPos',
+          'WRdTl': 'AWRdTl', 'WTestNeg': 'AWTestNeg', 'PRead': 'APRead', 'PipeRd': 'APipeRd', 'FReadH': 'AFReadH',
+          'Ret': 'ARet'}
+
+
+def coq_lbl(l):
+    k = l[0]
+    if k in SIMPLE:
+        return SIMPLE[k]
+    if k == 'AppG':
+        return '(AAppG %s)' % l[1]
+    if k in ('Call', 'Disp'):
+        return '(A%s %s)' % (k, coq_ev(l[1]))
+    if k == 'SetHd':
+        return '(ASetHd %s)' % l[1]
+    if k == 'Wait':
+        return '(AWait %s)' % ('true' if l[1] else 'false')
+    if k == 'Select':
+        return '(ASelect %s)' % ('true' if l[1] else 'false')
+    raise ValueError(l)
+
+
+CONFIGS = [('fallback', False), ('fallback', True), ('select', False), ('poll', False), ('epoll', False),
+           ('select', True), ('fallback', False), ('fallback', True)]
+THREADS = [[1], [2], [1, 1], [2, 1], [3], [2, 2], [1, 1, 1]]
+
+
+class C03(Prop):
+    id = 'C03'
+    props_file = 'Props/C03.v'
+    imports = ['Model.Wake', 'Model.WakeObs']
+    quick_n = 420
+    thorough_n = 6000
+    rule = ('real Manager.run() thread + 1-3 real firing threads (1-3 events each) stepped line by line under a '
+            'scheduler: fallback generator / Select / Poll / EPoll waiter, with and without a timer-like '
+            'generate_events handler; schedules: sticky runs with 0-3 pre-emptions at sampled step indices (all thread '
+            'orders), coarse single pre-emptions at every loop step, random walks with stickiness 0.5-0.95. '
+            'non-trivial = at least one foreign append happens while the loop is inside a tick (not parked)')
+    trusted_base = ['hand-written protocol model Model/Wake.v tied to /repo by replaying every observed trace (accepts)',
+                    'scheduler, lock/Event/select/pipe doubles and source-line anchors in harness/c03.py',
+                    'CPython executes one source line of the instrumented functions without a thread switch '
+                    'that matters (at most one shared access per line, GIL)']
+    assumptions = ['pre-emption at source-line granularity of the instrumented functions plus every lock/Event/select/pipe '
+                   'operation; sub-line (bytecode) interleavings are not explored',
+                   'select/poll/epoll are consulted with timeout 0 by the double; a blocking call is a parked thread',
+                   'all events have equal priority']
+
+    def __init__(self):
+        self.stats = {}
+        self._obs = {}
+
+    # ---- cases
+    def generate(self, rng, n, tier):
+        cases = []
+        for i in range(n):
+            mode, timer = CONFIGS[i % len(CONFIGS)]
+            threads = list(rng.choice(THREADS if tier == 'thorough' else THREADS[:5]))
+            nt = len(threads) + 1
+            r = rng.random()
+            if r < 0.55:
+                order = list(range(nt))
+                rng.shuffle(order)
+                k = rng.choice([0, 1, 1, 2, 2, 3])
+                sw = sorted([rng.randint(0, 420), rng.randint(0, nt - 1)] for _ in range(k))
+                sch = {'kind': 'pre', 'order': order, 'sw': sw}
+            else:
+                sch = {'kind': 'rnd', 'seed': rng.randint(0, 10 ** 9), 'stick': rng.choice([0.5, 0.8, 0.9, 0.95])}
+            cases.append({'mode': mode, 'timer': timer, 'threads': threads, 'sched': sch,
+                          'tmo': rng.choice([0, 0, 1, 2])})
+        return cases
+
+    # ---- implementation
+    def impl(self, case):
+        obs = run_case(case)
+        self._obs[common.canon(case)] = obs
+        st = self.stats
+        st['runs'] = st.get('runs', 0) + 1
+        st['controlled_steps'] = st.get('controlled_steps', 0) + obs['steps']
+        st['visible_actions'] = st.get('visible_actions', 0) + len(obs['trace'])
+        e = 'end_' + obs['verdict']['end']
+        st[e] = st.get(e, 0) + 1
+        mk = 'mode_' + case['mode'] + ('+timer' if case.get('timer') else '')
+        st[mk] = st.get(mk, 0) + 1
+        return obs
+
+    # ---- model
+    def model_term(self, case):
+        obs = self._obs.get(common.canon(case))
+        if obs is None or not isinstance(obs, dict) or 'trace' not in obs:
+            return None
+        return self.case_term(case, obs)
+
+    def case_term(self, case, obs):
+        tr = '; '.join('(%d, %s)' % (t, coq_lbl(l)) for t, l in obs['trace'])
+        return 'obs_trace %s [%s]%%nat' % ('Fallback' if case['mode'] == 'fallback' else 'Poller', tr)
+
+    def obs_for_model(self, case, obs):
+        if isinstance(obs, dict) and '__crash__' in obs:
+            return [-999]
+        if obs['missing_anchors']:
+            return [-5]
+        v = obs['verdict']
+        return [-1, [list(x) for x in obs['log']], v['pending'], v['gcount'], bool(v['blocked'])]
+
+    # ---- oracle: the property read on the real run
+    def oracle(self, case, obs):
+        if isinstance(obs, dict) and '__crash__' in obs:
+            return None
+        v = obs['verdict']
+        if obs['errors']:
+            return 'run failed: %s' % '; '.join(obs['errors'])
+        if v['end'] == 'lost-wakeup':
+            return ('lost wake-up: loop parked in %s (timeout %s), events %s of returned fire() calls are queued and no '
+                    'thread can move' % (v['wait'], v['timeout'], v['queued']))
+        if v['end'] in ('deadlock', 'loop-terminated', 'step-limit'):
+            return 'run ended with %s: %s' % (v['end'], v)
+        log = [tuple(x) for x in obs['log']]
+        if len(set(log)) != len(log):
+            return 'an event was dispatched twice: %s' % log
+        for t, n in enumerate(case['threads']):
+            got = [k for (tt, k) in log if tt == t]
+            if got != list(range(n)):
+                return 'thread %d fired 0..%d, dispatched %s' % (t, n - 1, got)
+        return None
+
+    def nontrivial(self, case, obs):
+        """some firing-thread step is directly followed by a loop step that is not the return of the idle wait:
+        the loop was really interleaved with a fire()"""
+        if not isinstance(obs, dict) or 'trace' not in obs:
+            return False
+        tr = obs['trace']
+        return any(tr[i][0] != 0 and tr[i + 1][0] == 0 and tr[i + 1][1][0] not in ('Wait', 'Select')
+                   and tr[i][1][0] != 'Ret' for i in range(len(tr) - 1))
+
+
+if __name__ == '__main__':
+    sys.exit(common.main(C03()))
